@@ -292,7 +292,7 @@ func TestC18Proxy(t *testing.T) {
 	rep := vlib.NewReport("C18", "E4:max_proxy_blob_size/"+mode)
 	defer rep.Write()
 	ps := []int64{100, 4096}
-	ns := func(P int64) []int64 { return []int64{P - 1, P, P + 1} }
+	ns := func(P int64) []int64 { return []int64{P - 1, P, P + 1, 2 * P} }
 	if vlib.Thorough() {
 		ps = []int64{1, 100, 4095, 4096, 4097, 1 << 20}
 		ns = func(P int64) []int64 {
@@ -311,11 +311,17 @@ func TestC18Proxy(t *testing.T) {
 	}
 	for _, P := range ps {
 		for _, n := range ns(P) {
-			for _, op := range []string{"get-known", "get-unknown", "getzstd-known", "contains-known", "contains-unknown", "findmissing", "ac-dependency"} {
+			// content: incompressible, and compressible (in zstd mode the stored object of an
+			// oversize blob is then SMALLER than the limit: the limit is on the logical size)
+			for _, op := range []string{"get-known", "get-unknown", "getzstd-known", "contains-known", "contains-unknown", "findmissing", "ac-dependency",
+				"get-known/compressible", "get-unknown/compressible", "getzstd-known/compressible", "contains-unknown/compressible", "ac-dependency/compressible"} {
 				rep.Eval()
 				px := vlib.NewFakeProxy()
 				f := newFx(fxOpts{mode: mode, maxProxy: P, proxy: px, validateAC: true})
-				content := vlib.Bytes(fmt.Sprintf("c18p/%s/%d/%d/%s", mode, P, n, op), int(n), false)
+				compressible := strings.HasSuffix(op, "/compressible")
+				opName := op
+				op = strings.TrimSuffix(op, "/compressible")
+				content := vlib.Bytes(fmt.Sprintf("c18p/%s/%d/%d/%s", mode, P, n, opName), int(n), compressible)
 				h := vlib.Sha(content)
 				st := content
 				if mode == "zstd" {
@@ -374,8 +380,8 @@ func TestC18Proxy(t *testing.T) {
 						cached = true
 					}
 				}
-				id := fmt.Sprintf("mode=%s max_proxy_blob_size=%d object=%d bytes op=%s -> served=%v present=%v cached=%v backend_asked=%v", mode, P, n, op, served, present, cached, asked)
-				key := fmt.Sprintf("C18 proxy op=%s object-vs-limit=%s", op, cmpClass(n, P))
+				id := fmt.Sprintf("mode=%s max_proxy_blob_size=%d object=%d bytes op=%s -> served=%v present=%v cached=%v backend_asked=%v", mode, P, n, opName, served, present, cached, asked)
+				key := fmt.Sprintf("C18 proxy op=%s object-vs-limit=%s", opName, cmpClass(n, P))
 				if n <= P {
 					ok := served || present
 					if !ok {
